@@ -92,7 +92,7 @@ def step (st : St) (args : List String) : St × String :=
       match assocGet st.insts id with
       | none => (st, "bad-op")
       | some (_, s) =>
-        (st, s!"wall={s.wallK} mono={s.monoK} rand={s.randPos} hostOut={s.hostOut} slept={s.slept} yields={s.yields} fds={s.fds.map (·.1)}")
+        (st, s!"wall={s.wallK} mono={s.monoK} rand={s.randPos} hostOut={s.hostOut} slept={s.slept} asked={s.sleepAsked} yields={s.yields} fds={s.fds.map (·.1)}")
     | none => (st, "bad-op")
   | ["sources"] => (st, reprStr defaultSources |>.replace "\n" " ")
   | ["drop", id] =>
